@@ -26,24 +26,69 @@ func e1Specs(prop, tier string) []engines.E1Spec {
 	or := []string{prop}
 	switch prop {
 	case "C01", "C02", "C05", "C13":
+		gz := rig.Config{RecordSize: 20, Compression: "gzip", Encryption: "age", Signature: "minisign"}
+		zs := rig.Config{RecordSize: 3, Compression: "zstandard", Encryption: "pgp", Signature: "pgp", WriteCache: "file"}
+		specs := []engines.E1Spec{}
 		if tier == "quick" {
-			return []engines.E1Spec{
-				{Name: "A-small/none/rs20", Cfg: cfgNone, Alphabet: engines.SmallA(), Depth: 3, Oracles: or},
-				{Name: "A-small/none/rs1", Cfg: rig.Config{RecordSize: 1}, Alphabet: engines.SmallA(), Depth: 2, Oracles: or},
+			specs = []engines.E1Spec{
+				{Name: "A-full/none/rs20", Cfg: cfgNone, Alphabet: engines.FullA(), Depth: 3, Oracles: or},
+				{Name: "A-small/none/rs1", Cfg: rig.Config{RecordSize: 1}, Alphabet: engines.SmallA(), Depth: 3, Oracles: or},
+				{Name: "A-small/gzip+age+minisign/rs20", Cfg: gz, Alphabet: engines.SmallA(), Depth: 2, Oracles: or},
+				{Name: "N-names/none/rs20", Cfg: cfgNone, Alphabet: engines.NameAlphabet(), Depth: 2, Oracles: or},
+			}
+		} else {
+			specs = []engines.E1Spec{
+				{Name: "A-full/none/rs20", Cfg: cfgNone, Alphabet: engines.FullA(), Depth: 4, Oracles: or},
+				{Name: "A-small/none/rs1", Cfg: rig.Config{RecordSize: 1}, Alphabet: engines.SmallA(), Depth: 4, Oracles: or},
+				{Name: "A-small/none/rs3/wc=file", Cfg: rig.Config{RecordSize: 3, WriteCache: "file"}, Alphabet: engines.SmallA(), Depth: 3, Oracles: or},
+				{Name: "A-small/gzip+age+minisign/rs20", Cfg: gz, Alphabet: engines.SmallA(), Depth: 3, Oracles: or},
+				{Name: "A-small/zstandard+pgp+pgp/rs3", Cfg: zs, Alphabet: engines.SmallA(), Depth: 2, Oracles: or},
+				{Name: "N-names/none/rs20", Cfg: cfgNone, Alphabet: engines.NameAlphabet(), Depth: 3, Oracles: or},
 			}
 		}
-		return []engines.E1Spec{
-			{Name: "A-full/none/rs20", Cfg: cfgNone, Alphabet: engines.FullA(), Depth: 4, Oracles: or},
-			{Name: "A-small/none/rs1", Cfg: rig.Config{RecordSize: 1}, Alphabet: engines.SmallA(), Depth: 3, Oracles: or},
-			{Name: "A-small/none/rs3", Cfg: rig.Config{RecordSize: 3}, Alphabet: engines.SmallA(), Depth: 3, Oracles: or},
+		if prop == "C02" {
+			d := 2
+			if tier != "quick" {
+				d = 3
+			}
+			specs = append(specs,
+				engines.E1Spec{Name: "flags-on-existing/none/rs20", Cfg: cfgNone, Setup: []ops.Op{{K: "put", P: "/f", C: "hello"}}, Alphabet: append(engines.FlagAlphabet("/f"), ops.Op{K: "remove", P: "/f"}), Depth: d, Oracles: or},
+				engines.E1Spec{Name: "flags-on-missing/none/rs20", Cfg: cfgNone, Setup: []ops.Op{{K: "mkdir", P: "/d"}}, Alphabet: append(engines.FlagAlphabet("/d/f"), ops.Op{K: "remove", P: "/d/f"}, ops.Op{K: "openw", P: "/nodir/f", N: os.O_RDWR | os.O_CREATE}), Depth: d, Oracles: or})
 		}
+		if prop == "C01" || prop == "C05" {
+			d := 3
+			if tier != "quick" {
+				d = 5
+			}
+			// open handles across other calls (no reference model: live vs reopen vs rebuild, and tape invariants)
+			specs = append(specs, engines.E1Spec{Name: "H-handles/none/rs20", Cfg: cfgNone, Alphabet: engines.HandleMixAlphabet(), Depth: d, Oracles: or, Level: "raw"})
+			b := 2
+			if tier != "quick" {
+				b = 3
+			}
+			specs = append(specs, engines.E1Spec{Name: "B-archive/none/rs3", Cfg: rig.Config{RecordSize: 3}, Alphabet: engines.AlphabetB(tier != "quick"), Depth: b, Oracles: or, Level: "archive"})
+		}
+		if prop == "C13" {
+			max := 2
+			if tier != "quick" {
+				max = 3
+			}
+			for i, setup := range engines.WSetups(engines.WNames, max) {
+				if tier == "quick" && i%3 != 0 {
+					continue
+				}
+				specs = append(specs, engines.E1Spec{Name: fmt.Sprintf("W%d-names/none/rs20", i), Cfg: cfgNone, Setup: setup, Alphabet: engines.WAlphabet(engines.WNames)[:20], Depth: 1, Oracles: or})
+			}
+			specs = append(specs, engines.E1Spec{Name: "T-deep/none/rs20", Cfg: cfgNone, Alphabet: engines.DeepAlphabet(), Depth: map[bool]int{true: 3, false: 4}[tier == "quick"], Oracles: or})
+		}
+		return specs
 	}
 	switch prop {
 	case "C04":
 		if tier == "quick" {
 			out := []engines.E1Spec{}
 			for _, rs := range []int{1, 3, 20} {
-				out = append(out, engines.E1Spec{Name: fmt.Sprintf("B/none/rs%d", rs), Cfg: rig.Config{RecordSize: rs}, Alphabet: engines.AlphabetB(false), Depth: 2, Oracles: or, Level: "archive"})
+				out = append(out, engines.E1Spec{Name: fmt.Sprintf("B/none/rs%d", rs), Cfg: rig.Config{RecordSize: rs}, Alphabet: engines.AlphabetB(false), Depth: 3, Oracles: or, Level: "archive"})
 			}
 			return out
 		}
@@ -56,12 +101,13 @@ func e1Specs(prop, tier string) []engines.E1Spec {
 	case "C07":
 		if tier == "quick" {
 			return []engines.E1Spec{
-				{Name: "A-small/none/rs20", Cfg: cfgNone, Alphabet: engines.SmallA(), Depth: 2, Oracles: or},
-				{Name: "B/none/rs3", Cfg: rig.Config{RecordSize: 3}, Alphabet: engines.AlphabetB(false), Depth: 2, Oracles: or, Level: "archive"},
+				{Name: "A-small/none/rs20", Cfg: cfgNone, Alphabet: engines.SmallA(), Depth: 3, Oracles: or, AllJ: true},
+				{Name: "B/none/rs3", Cfg: rig.Config{RecordSize: 3}, Alphabet: engines.AlphabetB(false), Depth: 2, Oracles: or, Level: "archive", AllJ: true},
 			}
 		}
 		return []engines.E1Spec{
-			{Name: "A-small/none/rs20", Cfg: cfgNone, Alphabet: engines.SmallA(), Depth: 3, Oracles: or, AllJ: true},
+			{Name: "A-full/none/rs20", Cfg: cfgNone, Alphabet: engines.FullA(), Depth: 3, Oracles: or, AllJ: true},
+			{Name: "A-small/none/rs1", Cfg: rig.Config{RecordSize: 1}, Alphabet: engines.SmallA(), Depth: 4, Oracles: or, AllJ: true},
 			{Name: "B-full/none/rs3", Cfg: rig.Config{RecordSize: 3}, Alphabet: engines.AlphabetB(true), Depth: 3, Oracles: or, Level: "archive", AllJ: true},
 		}
 	case "C14":
@@ -72,7 +118,7 @@ func e1Specs(prop, tier string) []engines.E1Spec {
 		inits := []init{{"hello", 5}, {"", 0}}
 		flagSets := []int{os.O_RDONLY, os.O_WRONLY, os.O_RDWR, os.O_RDWR | os.O_APPEND, os.O_RDWR | os.O_TRUNC}
 		caches := []string{"memory", "file"}
-		depth := 2
+		depth := 3
 		if tier != "quick" {
 			depth = 4
 			inits = append(inits, init{"T1100", 1100})
